@@ -74,3 +74,13 @@ package keystore
 //@ func unmarshalMasterPrivKey
 //@   requires masterPrivKey != nil
 //@   modifies deep(masterPrivKey), elems(byte), lastCT, lastCTA, lastCTB, deriveOK, deriveKeyOf
+
+// one passphrase for all keystores: a keystore is added only under the passphrase that the existing ones were checked with
+//@ func (*KeystoreManagerForPoC).ImportKeystore
+//@   assert-at call safelyCheckPassword checks-the-passphrase-the-import-will-use: arg1 == newPrivPass
+//@ func (*KeystoreManagerForPoC).ImportKeystore$1
+//@   assert-at call allocAddrMgrNamespace stored-under-the-checked-passphrase: arg3 == newPrivPass && arg2 == oldPrivPass
+//@ func (*KeystoreManagerForPoC).NewKeystore
+//@   assert-at call safelyCheckPassword checks-the-passphrase-the-keystore-will-use: arg1 == privPassphrase
+//@ func (*KeystoreManagerForPoC).NewKeystore$1
+//@   assert-at call create stored-under-the-checked-passphrase: arg3 == privPassphrase
